@@ -367,8 +367,14 @@ func (x *Explorer) symBinop(op token.Token, t types.Type, yt types.Type, a, b va
 		case token.AND_NOT:
 			return x.mk("(bvand "+l+" (bvnot "+r+"))", ls)
 		case token.EQL:
+			if l == r {
+				return true
+			}
 			return x.mk("(= "+l+" "+r+")", sBool)
 		case token.NEQ:
+			if l == r {
+				return false
+			}
 			return x.mk("(not (= "+l+" "+r+"))", sBool)
 		case token.LSS:
 			return x.mk("("+pick("bvslt", "bvult")+" "+l+" "+r+")", sBool)
